@@ -1643,7 +1643,7 @@ func (b *Bitmap) unmarshalPilosaRoaring(data []byte) error {
 	for i, buf := 0, data[headerSize:]; i < int(keyN); i, buf = i+1, buf[12:] {
 		// A container of a type nobody knows must not enter the bitmap:
 		// whoever cleans up after the error below would trip over it.
-		if typ := byte(binary.LittleEndian.Uint16(buf[8:10])); typ > containerRun {
+		if typ := byte(binary.LittleEndian.Uint16(buf[8:10])); typ < containerArray || typ > containerRun {
 			return fmt.Errorf("unknown container type %d", typ)
 		}
 		b.Containers.PutContainerValues(
